@@ -40,7 +40,6 @@ def prefixShape (od : OpDef) : Option (List Char × Option Nat) :=
   | some [.text s, .hole 0 a] => some (s, a)
   | _ => none
 
-def stdName (s : String) : List Char := s.toList
 
 /-- where the emitter's numbers for a template operator come from: dialect + std name -/
 def EOp.def? : EOp → Option OpDef
@@ -156,14 +155,14 @@ def toTree (d : Dialect) : PExpr → Option ETree
 
 def eopText : EOp → List Char
   | .bin b => b.text
-  | .divF => ['/'] | .mod => ['%'] | .regexp => "REGEXP".toList
+  | .divF => ['/'] | .mod => ['%'] | .regexp => ['R', 'E', 'G', 'E', 'X', 'P']
 
 def tokText : PrecU.Tok SAtom EOp EU → List Char
   | .atom (.col i) => Model.Pratt.colName i
   | .atom (.text s) => s
   | .op o => eopText o
   | .pre .neg => ['-']
-  | .pre .not => "NOT".toList
+  | .pre .not => ['N', 'O', 'T']
   | .lp => ['(']
   | .rp => [')']
 
